@@ -312,6 +312,26 @@ def CxOk (sig : Sig) (cx : Cx) : Prop :=
 /-- Every type has a value (the hypothesis under which exhaustiveness checking is exact). -/
 def Inhabited' (sig : Sig) : Prop := ∀ t, ∃ v, hasTy sig v t = true
 
+/-! ### A decidable certificate for `Inhabited'` on a finite type table
+
+`rank` assigns a natural number to every type id such that every field of a struct has a smaller
+rank than the struct and every enum has *one* variant all of whose fields have a smaller rank
+(`Lemmas/Useful.lean`: `inhabited_of_rank`, `inhabited_of_rankCheck`). -/
+
+def sigOfTable (defs : List Def) : Sig := fun t => defs.getD t .prim
+
+def rankOkAt (sig : Sig) (rank : Nat → Nat) (t : Nat) : Bool :=
+  match sig t with
+  | .prim => true
+  | .struct fs => fs.all (fun f => rank f.2 < rank t)
+  | .enum _ vs => vs.any (fun v =>
+      (match findVariant vs v.1 with
+        | some tys => tys.all (fun ty => rank ty < rank t)
+        | none => false))
+
+def rankCheck (defs : List Def) (rank : List Nat) : Bool :=
+  (List.range defs.length).all (rankOkAt (sigOfTable defs) (fun t => rank.getD t 0))
+
 /-! ## Source patterns and their normalisation (main_checker.rs:1082-1512)
 
 `check_matching_pattern` returns the checked pattern and the abstract node, and reports errors.
